@@ -847,3 +847,64 @@ pub fn replay(part: &str, case: &Value) -> Option<CaseResult> {
         _ => None,
     }
 }
+
+// ------------------------------------------------------------------------------------------
+// byte-level entry point for coverage-guided fuzzing (fuzz/fuzz_targets/c06_parse.rs):
+// whenever the reference decoder accepts a datagram, flute must accept it too (except for what is
+// flute policy) and report identical fields.
+
+pub fn run_bytes(d: &[u8]) -> Result<(), String> {
+    let r = match pkt::decode(d, 0) {
+        Ok(r) => r,
+        Err(_) => {
+            // not a packet for the reference: flute only has to return (Ok or Err) without panicking
+            let _ = parse_alc_pkt(d);
+            return Ok(());
+        }
+    };
+    // flute policy, not format: FTI values it refuses for Raptor / RaptorQ
+    if let Some(f) = &r.fti {
+        if matches!(f.scheme, Scheme::RaptorQ | Scheme::Raptor) && (f.e == 0 || f.z == 0 || f.al == 0 || f.e % f.al as u16 != 0) {
+            let _ = parse_alc_pkt(d);
+            return Ok(());
+        }
+        // inconsistent RS FTI (max_n < B) is C04's business
+        if matches!(f.scheme, Scheme::Rs28 | Scheme::Rs28Us | Scheme::Rs2m) && f.max_n < f.b {
+            let _ = parse_alc_pkt(d);
+            return Ok(());
+        }
+    }
+    let p = parse_alc_pkt(d).map_err(|e| format!("the reference decoder accepts the datagram, flute rejects it: {} ({:02x?})", e.0, &d[..d.len().min(64)]))?;
+    eq("CCI", "flute", p.lct.cci, r.lct.cci)?;
+    eq("TSI", "flute", p.lct.tsi, r.lct.tsi)?;
+    eq("TOI", "flute", p.lct.toi, r.lct.toi)?;
+    eq("codepoint", "flute", p.lct.cp, r.lct.cp)?;
+    eq("close object", "flute", p.lct.close_object, r.lct.close_object)?;
+    eq("close session", "flute", p.lct.close_session, r.lct.close_session)?;
+    if r.lct.toi == 0 {
+        eq("EXT_FDT", "flute", p.fdt_info.as_ref().map(|f| (f.version as u8, f.fdt_instance_id)), r.fdt)?;
+    }
+    if let Some(c) = r.cenc {
+        if c <= 3 {
+            eq("EXT_CENC", "flute", p.cenc.map(|c| c as u8), Some(c))?;
+        }
+    } else {
+        eq("EXT_CENC", "flute", p.cenc.map(|c| c as u8), None)?;
+    }
+    match &r.fti {
+        Some(f) => {
+            let got = p.oti.clone().ok_or("flute does not see the EXT_FTI the reference decoded")?;
+            check_flute_oti(&got, p.transfer_length, f)?;
+            let m = if f.scheme == Scheme::Rs2m { if f.m == 0 { 8 } else { f.m } } else { 0 };
+            if f.scheme != Scheme::Rs2m || (2..=16).contains(&m) {
+                let pid = parse_payload_id(&p, &got).map_err(|e| format!("payload id: {}", e.0))?;
+                let want = fti::decode_payload_id(f.scheme, m, &d[r.lct.header_len..]).map_err(|e| e)?;
+                eq("SBN", "flute", pid.sbn, want.sbn)?;
+                eq("ESI", "flute", pid.esi, want.esi)?;
+            }
+        }
+        None => eq("EXT_FTI", "flute", p.oti.is_some(), false)?,
+    }
+    eq("payload offset", "flute", p.data_payload_offset, d.len() - r.payload.len())?;
+    Ok(())
+}
